@@ -41,7 +41,7 @@ CLAUSES = {"join": "valid distinct address recorded under its ID within the time
            "lookup": "master's current mapping, trivial answers, -2 / -1 codes", "undisturbed": "asking never disturbs the master",
            "release": "back to the unassigned address, lease freed", "connected": "check_connection() True exactly for connected nodes",
            "safe": "with loss: no exception, termination, valid-or-None"}
-PROBES = ["collision", "serialised_call_checked", "join_via_relay", "join_at_level_4", "master_mcu_stopped", "orphan_rejoined", "fault:mcu_stall_on_rx", "master_busy_during_check", "peer_mcu_stopped", "relay_closed_during_exchange", "fault:outage_during_call"]
+PROBES = ["collision", "serialised_call_checked", "join_via_relay", "join_at_level_4", "master_mcu_stopped", "orphan_rejoined", "fault:mcu_stall_on_rx", "master_busy_during_check", "peer_mcu_stopped", "relay_closed_during_exchange", "fault:outage_during_call", "fault:master_busy_during_confirmation"]
 SHRINK_KEYS = ("joiners", "faults")
 CHUNK = 2
 MAX_INCONCLUSIVE = 0.03
@@ -227,6 +227,18 @@ def make(i, base_seed, tier):
         jb = {"id": idb, "cls": "mesh", "offset_ms": 0, "knobs": kb, "ops": [{"op": "renew", "timeout": 10.0}, {"op": "lookup_address", "id": idb}]}
         scn.update(serial=True, lossy=False, faults=[], prefill={str(k): v for k, v in pf.items()}, joiners=[ja, jb], family="relay_closes",
                    close_on_rx={"ptype": 128, "relay_id": ida, "for_id": idb})
+    if not big and 0.54 <= fam < 0.58:
+        # (confirm_lost) the master's application is busy for longer than both confirming lookups of a joining node last (2 x 135 ms),
+        # from the instant the node's radio stores the address response: the node has to fall back to the unassigned address and
+        # ask again - and joins once the master is back (its radio acknowledged the lookups all along)
+        ida = xr.randint(1, 255)
+        ka = knobs()
+        for k_ in (ka, scn["master_knobs"]):
+            k_.pop("stall_prob", None)
+            k_.pop("stall_us", None)
+        ja = {"id": ida, "cls": "mesh", "offset_ms": 0, "knobs": ka, "ops": [{"op": "renew", "timeout": 10.0}, {"op": "lookup_address", "id": ida}]}
+        scn.update(serial=True, lossy=False, faults=[], prefill={}, joiners=[ja], family="confirm_lost",
+                   stall_master_on_rx={"ptype": 128, "ms": xr.uniform(300, 360), "for_id": ida})
     if not big and 0.46 <= fam < 0.54:
         ids3 = xr.sample(range(1, 256), 3)
         fake = [x for x in range(1, 256) if x not in ids3]
@@ -301,6 +313,16 @@ def _run(scn, w, res):
                     net.nodes[rid].mcu.pending_stall = int(rule["ms"] * MS)
                     sim.count("fault:mcu_stall_on_rx")
             net.nodes[rid].radio.on_store = on_store
+    if scn.get("stall_master_on_rx"):
+        rule_m = scn["stall_master_on_rx"]
+        fired_m = []
+
+        def on_store_m(pipe, data):
+            if not fired_m and len(data) >= 10 and data[6] == rule_m["ptype"] and data[7] == (rule_m["for_id"] & 0xFF):
+                fired_m.append(sim.now)
+                mnc.mcu.pending_stall = int(rule_m["ms"] * MS)
+                sim.count("fault:master_busy_during_confirmation")
+        net.nodes[rule_m["for_id"]].radio.on_store = on_store_m
     if scn.get("close_on_rx"):
         rule = scn["close_on_rx"]
         closed = []
